@@ -1061,7 +1061,7 @@ func replayMeta(raw json.RawMessage) vdrv.Verdict {
 
 func runMeta(t *testing.T) {
 	H.Rule("meta", "rapid: projgen bundles (ESM output, 8–40 files: static/dynamic/re-export/require edges, shared chunks, sideEffects:false package, CSS @import/url(), file/copy/dataurl/text/json assets, externals, inject, stdin) × minify subsets × splitting × source maps × legal comments × name templates with and without [hash] × public path; Metafile on. Oracles: outputs keys = emitted paths; bytes = len; imports = records parsed from the emitted JS/CSS (path, kind incl. file-loader, external flag; multiset); exports = parsed export names; entryPoint/cssBundle consistent; inputs keys = files seen by a pass-through OnLoad plugin (+ <stdin>), bytes = size on disk, inputs[*].imports = import records scanned from the input text and = what PluginBuild.Resolve answered; Σ bytesInOutput ≤ bytes; marker present ⇔ non-zero bytesInOutput; unused sideEffects:false inputs contribute nothing; in unminified bundles bytesInOutput = exact length of the text between path comments; metamorphic: inserting k ASCII bytes into one string literal raises bytesInOutput of that input and the file's bytes by exactly k in the outputs that carry it and changes nothing else. Non-trivial = ≥2 outputs and ≥5 inputs.")
-	H.SetupRapid("meta", H.N(640, 20000))
+	H.SetupRapid("meta", H.N(2400, 20000))
 	rapid.Check(t, func(rt *rapid.T) {
 		c := genCase(rt)
 		kb, _ := json.Marshal(c)
